@@ -9,6 +9,9 @@
      "wrap"   stream wrapper: encrypt m (lengths 0,1,15,16,17,31,32,33,48; three key sizes), then
               decrypt the produced stream: result = m, padding valid and removed exactly
               (Inv_WrapRoundTrip); the stream is 16 + Len(Pad(m)) bytes and starts with the IV.
+     "objs"   three live wrapper objects (key, key2, key again): object 1 encrypts after 2 and 3 were built, its
+              stream must be the SP 800-38A F.2.1 answer of ITS key and object 3 decrypts it (Inv_ObjectOwnKey);
+              with Deviations = {"SharedWrapperKey"} (key shared by all objects) Inv_ObjectOwnKey fails.
      "reject" wrong key / IV / data lengths end in res = "ValueError" without touching the
               cipher state (Inv_Rejects); right lengths never do (Inv_NoSpuriousReject).
    Thm_Pad: Pad always adds 1..16 bytes up to the next multiple of 16, is valid, Unpad inverts it.
@@ -18,7 +21,7 @@
 EXTENDS AESModes, AESVectors
 
 VARIABLES scn, stage, mid
-kvars == << key, w, st, rnd, ph, fn, iv, inp, outp, prev, res, wr, scn, stage, mid >>
+kvars == << key, w, st, rnd, ph, fn, iv, inp, outp, prev, res, wr, objs, scn, stage, mid >>
 
 Ramp(n, a, b) == [i \in 1..n |-> (a * i + b) % 256]
 
@@ -59,36 +62,52 @@ RejectScenarios ==
 AcceptScenarios ==
     { GoodScn(f, k, IV_F, PT_B) : f \in ModeFns, k \in {K_A1, K_A2, K_A3} }
     \cup { GoodScn("ecb_enc", K_A1, Ramp(n, 1, 0), PT_B) : n \in {0, 5, 40} }     \* ECB ignores the IV
-Scenarios == ModeScenarios \cup WrapScenarios \cup RejectScenarios \cup AcceptScenarios
+\* object 1 must produce SP 800-38A F.2.1 (CBC-AES128) although objects with other keys were built after it
+ObjScenarios ==
+    { [kind |-> "objs", name |-> "objs", key |-> K_A1, key2 |-> k2, iv |-> IV_F, pt |-> PT_F, ct |-> CBC128]
+        : k2 \in {K_A3, K_A2, Ramp(16, 5, 9)} }
+Scenarios == ModeScenarios \cup WrapScenarios \cup RejectScenarios \cup AcceptScenarios \cup ObjScenarios
 
-KInit == ModeInit /\ wr = WrNone /\ scn \in Scenarios /\ stage = "start" /\ mid = << >>
+KInit == ModeInit /\ wr = WrNone /\ objs = NoObjs /\ scn \in Scenarios /\ stage = "start" /\ mid = << >>
 
 Keep == UNCHANGED << scn, mid >>
 
 KNext ==
     \* --- mode known answers
     \/ /\ scn.kind = "mode" /\ stage = "start" /\ ModeCall(scn.enc, scn.key, scn.iv, scn.pt)
-       /\ stage' = "enc" /\ UNCHANGED wr /\ Keep
+       /\ stage' = "enc" /\ UNCHANGED << wr, objs >> /\ Keep
     \/ /\ scn.kind = "mode" /\ stage = "enc" /\ res = "ok" /\ ModeCall(scn.dec, scn.key, scn.iv, outp)
-       /\ stage' = "dec" /\ UNCHANGED wr /\ Keep
+       /\ stage' = "dec" /\ UNCHANGED << wr, objs >> /\ Keep
     \* --- wrapper round trip
     \/ /\ scn.kind = "wrap" /\ stage = "start" /\ WrapCall("wrap_enc", scn.key, scn.pt)
        /\ stage' = "w_enc" /\ UNCHANGED << key, w, st, rnd, ph >> /\ UNCHANGED modevars /\ Keep
-    \/ /\ scn.kind = "wrap" /\ stage = "w_enc" /\ WrapSub("cbc_enc", scn.key, scn.iv, Pad(scn.pt))
+    \* --- several live wrapper objects: construct 1 (key), construct 2 (key2), construct 3 (key again),
+    \*     encrypt with 1, decrypt the stream with 3 (same key, other object)
+    \/ /\ scn.kind = "objs" /\ stage \in {"start", "o1", "o2"}
+       /\ NewObj(CASE stage = "start" -> 1 [] stage = "o1" -> 2 [] OTHER -> 3,
+                 IF stage = "o1" THEN scn.key2 ELSE scn.key)
+       /\ stage' = (CASE stage = "start" -> "o1" [] stage = "o1" -> "o2" [] OTHER -> "o3")
+       /\ UNCHANGED << key, w, st, rnd, ph, wr >> /\ UNCHANGED modevars /\ Keep
+    \/ /\ scn.kind = "objs" /\ stage = "o3" /\ ObjCall("wrap_enc", 1, scn.pt)
+       /\ stage' = "w_enc" /\ UNCHANGED << key, w, st, rnd, ph >> /\ UNCHANGED modevars /\ Keep
+    \* the CBC call is made with the key of the wrapper call in progress (wr.key = the object's own key)
+    \/ /\ scn.kind \in {"wrap", "objs"} /\ stage = "w_enc" /\ WrapSub("cbc_enc", wr.key, scn.iv, Pad(scn.pt))
        /\ UNCHANGED stage /\ Keep
-    \/ /\ scn.kind = "wrap" /\ stage = "w_enc" /\ wr.ph = "sub" /\ res = "ok"
+    \/ /\ scn.kind \in {"wrap", "objs"} /\ stage = "w_enc" /\ wr.ph = "sub" /\ res = "ok"
        /\ WrapOutcomeOK("ret", iv \o outp)
        /\ mid' = iv \o outp /\ wr' = WrNone /\ stage' = "w_mid"
-       /\ UNCHANGED << key, w, st, rnd, ph, scn >> /\ UNCHANGED modevars
+       /\ UNCHANGED << key, w, st, rnd, ph, scn, objs >> /\ UNCHANGED modevars
     \/ /\ scn.kind = "wrap" /\ stage = "w_mid" /\ WrapCall("wrap_dec", scn.key, mid)
        /\ stage' = "w_dec" /\ UNCHANGED << key, w, st, rnd, ph >> /\ UNCHANGED modevars /\ Keep
-    \/ /\ scn.kind = "wrap" /\ stage = "w_dec" /\ WrapSub("cbc_dec", scn.key, IvOf(mid), PayloadOf(mid))
+    \/ /\ scn.kind = "objs" /\ stage = "w_mid" /\ ObjCall("wrap_dec", 3, mid)
+       /\ stage' = "w_dec" /\ UNCHANGED << key, w, st, rnd, ph >> /\ UNCHANGED modevars /\ Keep
+    \/ /\ scn.kind \in {"wrap", "objs"} /\ stage = "w_dec" /\ WrapSub("cbc_dec", wr.key, IvOf(mid), PayloadOf(mid))
        /\ UNCHANGED stage /\ Keep
     \* --- rejection
     \/ /\ scn.kind \in {"reject", "accept"} /\ stage = "start" /\ ModeCall(scn.f, scn.key, scn.iv, scn.data)
-       /\ stage' = "called" /\ UNCHANGED wr /\ Keep
+       /\ stage' = "called" /\ UNCHANGED << wr, objs >> /\ Keep
     \* --- the machine itself
-    \/ ModeStep /\ UNCHANGED << wr, stage >> /\ Keep
+    \/ ModeStep /\ UNCHANGED << wr, objs, stage >> /\ Keep
 
 KSpec == KInit /\ [][KNext]_kvars
 
@@ -98,14 +117,20 @@ Inv_ModeKnownAnswer ==
         /\ \A j \in 0..3 : Len(outp) >= 16 * (j + 1) => BlockAt(outp, 16 * j) = BlockAt(scn.ct, 16 * j)
 Inv_ModeDecryptInvertsEncrypt == (scn.kind = "mode" /\ stage = "dec" /\ res = "ok") => outp = scn.pt
 Inv_WrapStream ==
-    (scn.kind = "wrap" /\ stage \in {"w_mid", "w_dec"}) =>
+    (scn.kind \in {"wrap", "objs"} /\ stage \in {"w_mid", "w_dec"}) =>
         /\ Len(mid) = 16 + 16 * ((Len(scn.pt) \div 16) + 1)
         /\ SubSeq(mid, 1, 16) = scn.iv
 Inv_WrapRoundTrip ==
-    (scn.kind = "wrap" /\ stage = "w_dec" /\ wr.ph = "sub" /\ res = "ok") =>
+    (scn.kind \in {"wrap", "objs"} /\ stage = "w_dec" /\ wr.ph = "sub" /\ res = "ok") =>
         /\ ValidPad(outp) /\ Unpad(outp) = scn.pt
         /\ WrapOutcomeOK("ret", scn.pt) /\ ~ WrapDontCare
         /\ ~ WrapOutcomeOK("ret", outp) /\ ~ WrapOutcomeOK("raise", "ValueError")
+\* each object works under ITS OWN key: object 1's stream is the published CBC-AES128 answer of key 1
+Inv_ObjectOwnKey ==
+    (scn.kind = "objs") =>
+        /\ (stage \in {"w_mid", "w_dec"} => SubSeq(mid, 17, 80) = scn.ct)
+        /\ (stage \in {"o3", "w_enc", "w_mid", "w_dec"} =>
+               objs = (1 :> scn.key) @@ (2 :> scn.key2) @@ (3 :> scn.key))
 Inv_Rejects == (scn.kind = "reject" /\ stage = "called") => (res = "ValueError" /\ ph = "idle" /\ fn = "none")
 Inv_NoSpuriousReject == (scn.kind # "reject") => res # "ValueError"
 Inv_Termination == (res = "ok") => (ph = "ready" /\ Len(outp) = Len(inp))
